@@ -23,7 +23,7 @@ func init() {
 				maxN = 16
 			}
 			c.Rules = genRules(t, 1, maxN, 25, 0, 50)
-			c.Builds = genBuilds(t, len(c.Rules))
+			genBuildsReplacing(t, c)
 			c.Pool = rapid.Bool().Draw(t, "pool")
 			var names []string
 			for _, n := range c04Methods {
@@ -53,6 +53,9 @@ func init() {
 			x.Class("method:" + c.Call.Method)
 			if len(c.Builds) > 1 {
 				x.Class("incremental-build")
+			}
+			if len(c.OldSal) > 0 {
+				x.Class("incremental-build-replaces-old-versions")
 			}
 			nf := 0
 			for i, r := range c.Rules {
